@@ -34,7 +34,7 @@ RULE = (
 )
 REAL = ["sigma.* (all built-in validators except the ATT&CK / D3FEND tag validators)", "PyYAML", "pyparsing",
         "real rule files in a scratch tree"]
-STUB = ["SigmaValidator.validators (a set: no order promised) replaced by an explicitly ordered list",
+STUB = ["SigmaValidator.validators (a set: no order promised) replaced by a set subclass with scheduled iteration order",
         "directory enumeration order (pathlib.Path.glob wrapped)"]
 ASSUMPTIONS = [
     "re-using one SigmaValidator object for two validate_rules runs is not demanded (tables are not reset)",
@@ -134,8 +134,19 @@ def generate(streams: core.Streams, tier: str) -> dict:
         worlds.append({"validator_order": vo, "rule_order": ro, "ops": inter})
     worlds[0]["validator_order"] = list(range(len(subset)))
     worlds[0]["rule_order"] = list(range(len(docs)))
-    return {"documents": docs, "files": files, "validators": subset, "exclusions": exclusions,
-            "worlds": worlds, "cls": gen.pick(s, ["SimBackend", "SimBackendNE"])}
+    sc = {"documents": docs, "files": files, "validators": subset, "exclusions": exclusions,
+          "worlds": worlds, "cls": gen.pick(s, ["SimBackend", "SimBackendNE"])}
+    # drawn last (earlier draws keep their values): the conversions between the validations run with a
+    # pipeline that rewrites conditions.  add_condition adds a detection *and* refers to it, so the
+    # reference model's verdicts are the same before and after.
+    if gen.chance(w, 0.3):
+        tr: list[dict] = [{"type": "add_condition", "conditions": {"Extra": gen.pick(w, ["v", "w*"])}}]
+        if gen.chance(w, 0.4):
+            tr[0]["rule_conditions"] = [{"type": "logsource", "product": gen.pick(w, gen.PRODUCTS)}]
+        if gen.chance(w, 0.4):
+            tr.append({"type": "field_name_prefix", "prefix": "x."})
+        sc["conv_pipeline"] = {"name": "conv", "priority": 0, "transformations": tr}
+    return sc
 
 
 # ------------------------------------------------------------------------------------------------
@@ -299,7 +310,8 @@ def _world(args: tuple[dict, int | None]) -> dict:
     from uuid import UUID
 
     sc, wi = args
-    wd = sc["worlds"][wi] if wi is not None else {"validator_order": [], "ops": "CT", "rule_order": sc.get(
+    wd = sc["worlds"][wi] if wi is not None else {"validator_order": [], "ops": sc.get("_baseline_ops", "CT"),
+                                                  "rule_order": sc.get(
         "_baseline_order", list(range(len(sc["documents"]))))}
     scratch = world.scratch_dir()
     out: dict[str, Any] = {"issues": [], "errors": []}
@@ -321,12 +333,12 @@ def _world(args: tuple[dict, int | None]) -> dict:
             insts = sorted(v.validators, key=lambda x: type(x).__name__)
             byname = {type(x).__name__: x for x in insts}
             ordered = [byname[validators[sc["validators"][j]].__name__] for j in wd["validator_order"]]
-            v.validators = ordered  # type: ignore[assignment]  # explicit order instead of address order
+            v.validators = _OrderedSet(ordered)  # explicit iteration order instead of address order
             issues = v.validate_rules(iter(coll.rules))
             out["issues"].append(sorted(_issue_rec(i) for i in issues))
 
         def convert() -> dict:
-            b = simbackend.CLASSES[sc["cls"]](collect_errors=True)
+            b = simbackend.CLASSES[sc["cls"]](world.build_pipeline(sc.get("conv_pipeline")), collect_errors=True)
             r = world.capture(lambda: b.convert(coll))
             r["errors"] = world.errors_record(b.errors)
             return r
@@ -337,11 +349,15 @@ def _world(args: tuple[dict, int | None]) -> dict:
                 res[str(r.custom_attributes.get("sim_key"))] = world.capture(lambda r=r: r.to_dict())
             return res
 
+        out["issue_stage"] = []
+        n_conv = 0
         for ch in wd["ops"]:
             if ch == "V":
                 validate()
+                out["issue_stage"].append(n_conv)
             elif ch == "C":
                 convert()
+                n_conv += 1
             elif ch == "T":
                 todict()
         # final observation of every rule: dict form and converted queries
@@ -352,16 +368,33 @@ def _world(args: tuple[dict, int | None]) -> dict:
         shutil.rmtree(scratch, ignore_errors=True)
 
 
+class _OrderedSet(set):  # type: ignore[type-arg]
+    """A real set (so every set operation of the code under test keeps working, in place ones too)
+    whose iteration order is the order given by the schedule instead of the address order."""
+
+    def __init__(self, items: list) -> None:
+        super().__init__(items)
+        self._order = list(items)
+
+    def __iter__(self):  # type: ignore[no-untyped-def]
+        present = set.copy(self)
+        return iter([x for x in self._order if set.__contains__(present, x)]
+                    + [x for x in set.__iter__(present) if x not in self._order])
+
+
 def execute(scenario: dict) -> dict:
     sc = scenario
     bases: dict[tuple, dict] = {}
 
-    def baseline(order: list[int]) -> dict:
+    def baseline(order: list[int], ops: str = "CT") -> dict:
         """never-validated world with the same rule order (duplicate ids make references - and so the
-        conversion - depend on the rule order; that is not validation's doing)"""
-        key = tuple(order)
+        conversion - depend on the rule order; that is not validation's doing).  With a pipeline that
+        rewrites the rules, converting is not idempotent: the baseline then runs the same operations as
+        the world, minus the validations."""
+        ops = ops.replace("V", "") if sc.get("conv_pipeline") else "CT"
+        key = (tuple(order), ops)
         if key not in bases:
-            st0, b0 = core.run_in_fork(_world, (dict(sc, _baseline_order=list(order)), None), 30.0)
+            st0, b0 = core.run_in_fork(_world, (dict(sc, _baseline_order=list(order), _baseline_ops=ops), None), 30.0)
             if st0 != "ok":
                 raise core.HarnessError(f"baseline world failed: {st0}: {b0}")
             bases[key] = b0
@@ -375,7 +408,7 @@ def execute(scenario: dict) -> dict:
     probes: dict[str, int] = {}
     violation = None
     want = model_issues(sc)
-    first_issues = None
+    first_issues: dict[int, Any] = {}
     classes_seen: set[str] = set()
     log: dict[str, Any] = {"baseline_order": base.get("loaded_order"), "worlds": []}
     steps = 0
@@ -396,7 +429,7 @@ def execute(scenario: dict) -> dict:
         if wi < 2:
             log["worlds"].append({"world": wd, "issues": got["issues"][:1]})
         # (i) purity: final dict form and conversion equal the never-validated baseline (per rule)
-        base = baseline(wd["rule_order"])
+        base = baseline(wd["rule_order"], wd["ops"])
         if _by_rule(got["final_dict"]) != _by_rule(base["final_dict"]):
             violation = {"oracle": "validation-leaves-dict-form-unchanged", "kind": "to_dict-differs", "world": wd,
                          "got": _diff(got["final_dict"], base["final_dict"]), "want": "as freshly loaded"}
@@ -404,16 +437,19 @@ def execute(scenario: dict) -> dict:
             violation = {"oracle": "validation-leaves-conversion-unchanged", "kind": "queries-differ", "world": wd,
                          "got": _queries(got["final_convert"]), "want": _queries(base["final_convert"])}
         else:
-            for iss in got["issues"]:
+            for k_iss, iss in enumerate(got["issues"]):
                 for rec in iss:
                     classes_seen.add(rec[0])
-                # (ii) order / interleaving invariance
-                if first_issues is None:
-                    first_issues = iss
-                elif iss != first_issues:
+                # (ii) order / interleaving invariance.  With a rewriting pipeline the rules legitimately
+                # differ after each conversion: validations are compared with those made after the same
+                # number of conversions (the reference model below holds at every stage)
+                stage = got["issue_stage"][k_iss] if sc.get("conv_pipeline") else 0
+                if stage not in first_issues:
+                    first_issues[stage] = iss
+                elif iss != first_issues[stage]:
                     violation = {"oracle": "issues-independent-of-order-and-interleaving", "kind": "issue-multiset-differs",
-                                 "world": wd, "got": [x for x in iss if x not in first_issues],
-                                 "want": [x for x in first_issues if x not in iss]}
+                                 "world": wd, "got": [x for x in iss if x not in first_issues[stage]],
+                                 "want": [x for x in first_issues[stage] if x not in iss]}
                     break
                 # (iii) reference model
                 for cls, exp in want.items():
@@ -434,6 +470,8 @@ def execute(scenario: dict) -> dict:
         probes["keyword_prefixed_name"] = 1
     if sc.get("exclusions"):
         probes["exclusion_table"] = 1
+    if sc.get("conv_pipeline"):
+        probes["conversion_with_condition_rewriting_pipeline"] = 1
     for cls, exp in want.items():
         if exp:
             probes["model_expects:" + cls] = 1
@@ -475,6 +513,14 @@ def shrink(sc: dict) -> Iterable[dict]:
         for i in range(len(sc["worlds"])):
             c = copy.deepcopy(sc)
             c["worlds"] = [c["worlds"][i]]
+            yield c
+    if sc.get("conv_pipeline"):
+        c = copy.deepcopy(sc)
+        del c["conv_pipeline"]
+        yield c
+        if len(sc["conv_pipeline"]["transformations"]) > 1:
+            c = copy.deepcopy(sc)
+            del c["conv_pipeline"]["transformations"][1:]
             yield c
     n = len(sc["documents"])
     for i in reversed(range(n)):
